@@ -136,3 +136,29 @@ package ecs
 //@   serves C05 C16
 //@   ensures  inv: ipInv(p)
 //@   ensures  empty: len(p.pool) == 0 && p.available == 0
+
+// Reported figures (C02, C19): the number of used entities is the ghost live counter, which Get
+// increments and Recycle decrements (creations minus removals).
+
+//@ func (*entityPool).Len
+//@   serves C02 C19
+//@   requires poolInv(p)
+//@   ensures  used: uint64(result) == *epAlive(p)
+//@   modifies nothing
+
+//@ func (*entityPool).Cap
+//@   serves C19
+//@   requires poolInv(p)
+//@   ensures  total: uint64(result) == *epAlive(p) + uint64(p.available)
+//@   modifies nothing
+
+//@ func (*entityPool).Available
+//@   serves C19
+//@   ensures  recycled: result == int(p.available)
+//@   modifies nothing
+
+//@ func (*entityPool).TotalCap
+//@   serves C19
+//@   requires poolInv(p)
+//@   ensures  capacity: result == cap(p.entities) && uint64(result) >= *epAlive(p) + uint64(p.available)
+//@   modifies nothing
